@@ -16,15 +16,19 @@
   negotiated zero ⇒ both timers disabled.
 -/
 import Rbgp.Fsm.Spec
+import Rbgp.Fsm.TimedSpec
 import Rbgp.Fsm.Wire
 namespace Rbgp.Fsm.WireSpec
-open Rbgp.Fsm Rbgp.Fsm.Spec Rbgp.Fsm.Wire
+open Rbgp.Fsm Rbgp.Fsm.Spec Rbgp.Fsm.Wire Rbgp.Fsm.Timed
 
 /-- What the observer tracks: the C07 reference state plus the hold time in force per role. -/
 structure W where
   s : Spec.S := {}
   negA : Nat := 0
   negP : Nat := 0
+  /-- the C08 observer's record (clock, last KEEPALIVE/UPDATE/OPEN received, last keepalive-timer
+      start, hold time in force), advanced with `TimedSpec.onEv` / `TimedSpec.onWait` -/
+  t : TimedSpec.S := {}
   deriving DecidableEq, Repr, Inhabited
 
 def W.neg (w : W) : Role → Nat
@@ -140,9 +144,74 @@ def timerCheck (cfg : Cfg) (w : W) (r : Role) (a : WAct) (before after : Spec.S)
           else if tm.hold ≠ some n then some "hold-timer-not-the-negotiated-value"
           else none
         else
-          if tm.holdSet then some "hold-timer-rearmed-by-something-else"
-          else if tm.hold ≠ some n then some "hold-timer-not-the-negotiated-value"
-          else none
+          -- (the deadline itself is judged by `deadlineCheck`)
+          if tm.holdSet then some "hold-timer-rearmed-by-something-else" else none
+
+def tstepOf (st : WStep) (ev : TEv) (obs : TObs) : TStep :=
+  { ev := ev, obs := obs, stA := st.stA, stP := st.stP }
+
+/-- Advance the C08 observer's record over an ordinary action (the frames are judged elsewhere:
+    the record only needs the event and the reported states). -/
+def trackEv (cfg : Cfg) (t : TimedSpec.S) (r : Role) (a : WAct) (before : Spec.S) (st : WStep) :
+    Except String TimedSpec.S :=
+  match TimedSpec.onEv cfg t r a.ev (tstepOf st (.ev r a.ev) (.step (.fsm []))) with
+  | .error e => .error e
+  | .ok t1 =>
+      let after := if r = .active then st.stA else st.stP
+      -- entering Established: End-of-RIB goes out in the same turn, which restarts the keepalive timer
+      let t2 : Except String TimedSpec.S :=
+        if before.get r ≠ .established ∧ after = .established then
+          TimedSpec.onEv cfg t1 r (.input .updateSent) (tstepOf st (.ev r (.input .updateSent)) (.step (.fsm [])))
+        else .ok t1
+      match t2 with
+      | .error e => .error e
+      | .ok t2 =>
+          -- a keepalive-timer expiry restarts that timer
+          if a = .kaTimer ∧ (t2.get r).up then .ok (t2.set r { t2.get r with lastKa := t2.now }) else .ok t2
+
+/-- C08, general form: for a confirmed connection with hold time `n ≠ 0` in force the hold timer
+    is due `n` after the last KEEPALIVE/UPDATE/OPEN received and the keepalive timer `n / 3` after
+    its last start. -/
+def deadlineCheck (t : TimedSpec.S) (st : WStep) (r' : Role) : Option String :=
+  let x := t.get r'
+  match tmOf st r' with
+  | none => none
+  | some tm =>
+      if x.up ∧ x.confirmed ∧ x.neg ≠ 0 then
+        if tm.hold ≠ some (x.lastRx + x.neg - t.now) then some "hold-deadline-not-last-received-plus-hold-time"
+        else if tm.ka ≠ some (x.lastKa + x.neg / 3 - t.now) then some "keepalive-deadline-not-last-start-plus-a-third"
+        else none
+      else none
+
+def impliedFrames (fired : List (Nat × Role × Bool)) (r : Role) : List Frame :=
+  fired.flatMap fun (_, r', h) =>
+    if r' = r then (if h then [Frame.notif (4, 0), Frame.eof] else [Frame.keepalive]) else []
+
+/-- `d` seconds pass. -/
+def waitOk (timers : Bool) (w : W) (d : Nat) (st : WStep) : Except String W :=
+  let fs : List Fired := st.fired.map fun (tm, r, h) =>
+    { time := tm, role := r, isHold := h,
+      outs := if h then [POut.conn r (.down .holdExpired (some (4, 0)))] else [POut.conn r .sendKeepalive] }
+  if st.kind ≠ .step then .error "malformed-observation"
+  else if st.toA ≠ impliedFrames st.fired .active ∨ st.toP ≠ impliedFrames st.fired .passive then
+    .error "frames-during-wait-do-not-match-the-timer-expiries"
+  else
+    match TimedSpec.onWait w.t d (tstepOf st (.wait d) (.fired fs)) with
+    | .error e => .error e
+    | .ok t' =>
+        let s' : Spec.S := { a := if t'.a.up then w.s.a else .idle, p := if t'.p.up then w.s.p else .idle }
+        if st.stA ≠ s'.a ∨ st.stP ≠ s'.p then .error "state"
+        else
+          let w' : W := { w with s := s', t := t' }
+          if timers then
+            match deadlineCheck t' st .active, deadlineCheck t' st .passive with
+            | some e, _ => .error e
+            | none, some e => .error e
+            | none, none =>
+                if (st.tmA.isSome ≠ (s'.a ≠ .idle)) ∨ (st.tmP.isSome ≠ (s'.p ≠ .idle)) then
+                  .error "timer-probe-missing"
+                else .ok w'
+          else .ok w'
 
 def stepOk (cfg : Cfg) (frames timers : Bool) (w : W) (r : Role) (a : WAct) (st : WStep) :
     Except String W :=
@@ -150,6 +219,10 @@ def stepOk (cfg : Cfg) (frames timers : Bool) (w : W) (r : Role) (a : WAct) (st 
   match st.anomalies with
   | e :: _ => .error e
   | [] =>
+  match a with
+  | .wait d => waitOk timers w d st
+  | _ =>
+  if ¬ st.fired.isEmpty then .error "malformed-observation" else
   match a.forceDown? with
   | some n =>
       -- every session of the peer ends (with that NOTIFICATION, if any); whatever ends a session
@@ -160,7 +233,10 @@ def stepOk (cfg : Cfg) (frames timers : Bool) (w : W) (r : Role) (a : WAct) (st 
       else if st.stA ≠ .idle ∨ st.stP ≠ .idle then .error "slot-not-freed-after-session-end"
       else if frames && !(closedOk .active && closedOk .passive) then .error "forced-down-close"
       else if timers && (st.tmA.isSome || st.tmP.isSome) then .error "timer-probe-of-closed-connection"
-      else .ok { w with s := {} }
+      else
+        match trackEv cfg w.t r a w.s st with
+        | .error e => .error e
+        | .ok t' => .ok { w with s := {}, t := t' }
   | none =>
   match st.kind with
   | .refused =>
@@ -195,14 +271,20 @@ def stepOk (cfg : Cfg) (frames timers : Bool) (w : W) (r : Role) (a : WAct) (st 
           match (if frames then seesWire r a st ex else none) with
           | some e => .error e
           | none =>
+              match trackEv cfg w.t r a w.s st with
+              | .error e => .error e
+              | .ok t' =>
               let w' : W :=
                 { s := s', negA := negAfter cfg w r a w.s s' .active,
-                  negP := negAfter cfg w r a w.s s' .passive }
+                  negP := negAfter cfg w r a w.s s' .passive, t := t' }
               if timers then
-                match timerCheck cfg w r a w.s s' st .active, timerCheck cfg w r a w.s s' st .passive with
-                | some e, _ => .error e
-                | none, some e => .error e
-                | none, none => .ok w'
+                match timerCheck cfg w r a w.s s' st .active, timerCheck cfg w r a w.s s' st .passive,
+                      deadlineCheck t' st .active, deadlineCheck t' st .passive with
+                | some e, _, _, _ => .error e
+                | none, some e, _, _ => .error e
+                | none, none, some e, _ => .error e
+                | none, none, none, some e => .error e
+                | none, none, none, none => .ok w'
               else .ok w'
 
 inductive Verdict where
